@@ -281,7 +281,7 @@ fn main() {
         std::env::set_var("VERIF_NO_EVIDENCE", "1");
     }
     let ctx = Ctx::from_env("C20");
-    ctx.rule("(A) interference: every assignment of jobs (difficulty / performance / strains calls, gradual difficulty and gradual performance walks split into their steps; taiko and mania conversions with two different Random seeds and key mods; shared &Beatmap) from a pool to T threads and every interleaving of the threads' calls (T=2 x 3 calls: 20 schedules per assignment; T=3 x 2 calls: 90; thorough T=3 x 3: 1680) executed on real OS threads under the baton scheduler; oracle = every call returns the value it returns when its thread runs alone, shared maps unchanged. (B) hand-over: every gradual calculator that is Send in this build (all of them in the `sync` build, which the default build runs as a child) is moved between T <= 3 threads at the step boundaries: all T^n ownership sequences, n <= 4 (quick) / 5, incl. create on one thread and drop on another; oracle = the single-thread sequence. (D) shared-access preemption: 14 jobs of two calls, all 105 unordered pairs on two real threads with the pages of the library's writable statics and of the shared Beatmap structs protected; scheduling points = thread start, call boundaries, every write to a guarded region, every read of a location some job writes; every choice vector with <= 2 preemptions, each execution in a fresh process; oracle = every call returns what it returns when its job runs alone in a fresh process, also when repeated sequentially after the concurrent run. (C) free-running: the (A) job bodies on 16 unsynchronised threads for a fixed number of rounds against the sequential table — sampling, reported separately under coverage.free_running and not part of the exhaustive claim; non-trivial = schedules with more than one thread / ownership sequences that change thread");
+    ctx.rule("(A) interference: every assignment of jobs (difficulty / performance / strains calls, gradual difficulty and gradual performance walks split into their steps; taiko and mania conversions with two different Random seeds and key mods; shared &Beatmap) from a pool to T threads and every interleaving of the threads' calls (T=2 x 3 calls: 20 schedules per assignment; T=3 x 2 calls: 90; thorough T=3 x 3: 1680) executed on real OS threads under the baton scheduler; oracle = every call returns the value it returns when its thread runs alone, shared maps unchanged. (B) hand-over: every gradual calculator that is Send in this build (all of them in the `sync` build, which the default build runs as a child) is moved between T <= 3 threads at the step boundaries: all T^n ownership sequences, n <= 4 (quick) / 5, incl. create on one thread and drop on another; oracle = the single-thread sequence. (D) shared-access preemption: 16 jobs of two calls, all 136 unordered pairs on two real threads with the pages of the library's writable statics and of the shared Beatmap structs protected; scheduling points = thread start, call boundaries, every write to a guarded region, every read of a location some job writes; every choice vector with <= 2 preemptions, each execution in a fresh process; oracle = every call returns what it returns when its job runs alone in a fresh process, also when repeated sequentially after the concurrent run. (C) free-running: the (A) job bodies on 16 unsynchronised threads for a fixed number of rounds against the sequential table — sampling, reported separately under coverage.free_running and not part of the exhaustive claim; non-trivial = schedules with more than one thread / ownership sequences that change thread");
     ctx.assume("(A)/(B) switch threads at public call boundaries only; that is complete iff two calculations share no mutable location, which (D) checks on this very build: every access to the library's writable statics (found in the binary's symbol table) and to the shared Beatmap structs is intercepted, and where a job writes such a location all schedules with <= 2 preemptions at those accesses are explored. Outside every exhaustive part: heap state reached only through a pointer stored in a static, weak-memory reorderings; (C) samples those");
 
     let world = World { maps: Box::leak(maps().into_boxed_slice()), setts: setts() };
